@@ -350,10 +350,11 @@ FREQ_GRIDS = [g for g in gen.GRIDS if g[0] != '15min']
 UNITS = ('h', 'd', 'min')
 
 
-def freq_grid_variants(rnd, g0, n, tmax=32, unit_p=0.0):
+def freq_grid_variants(rnd, g0, n, tmax=32, unit_p=0.0, kinds=None):
     """grids over (about) the horizon of g0 whose step is a divisor / a multiple of g0's step or the same step, the frequency written
     in any accepted spelling; some also shifted or shortened by whole steps of g0; with probability `unit_p` the MAIN TIME UNIT of the
-    variant is another one than that of g0 (0: never, the random stream is then the one without this option)"""
+    variant is another one than that of g0 (0: never, the random stream is then the one without this option); `kinds`: the table the kind of a
+    variant is drawn from (None: finer 3 of 6, coarser, respelled, same 1 of 6 each)"""
     out = []
     step0 = g0['step_s']
     s0, e0 = pd.Timestamp(g0['start']), pd.Timestamp(g0['end'])
@@ -363,7 +364,7 @@ def freq_grid_variants(rnd, g0, n, tmax=32, unit_p=0.0):
     while len(out) < n and tries < 40:
         tries += 1
         g = {k: g0[k] for k in ('start', 'end', 'freq', 'unit', 'tz', 'step_s')}
-        kind = rnd.choice(['finer', 'finer', 'finer', 'coarser', 'respell', 'same'])
+        kind = rnd.choice(kinds or ['finer', 'finer', 'finer', 'coarser', 'respell', 'same'])
         if kind == 'finer':
             cands = [s for s in SPELL if s < step0 and step0 % s == 0 and tot // s <= tmax]
         elif kind == 'coarser':
@@ -554,6 +555,210 @@ def gen_ramp_case(rnd):
     case = finish_case(rnd, base, grids, cuts=CUTS_RAMP, mismatch_p=0.03, prefer=plants)
     case['stream'] = 'ramp'
     return case
+
+
+# ----- stream "layout": assets whose VARIABLE LAYOUT depends on the grid / the data of the call, set up on grids of other steps and horizons
+# (whatever a set-up notes on the object about the variables it created - positions, counts, which optional ones exist - must not be
+# read by a later set-up that creates other variables)
+UNIT_S = {'h': 3600, 'd': 86400, 'min': 60}
+CUTS_LAYOUT = (0.40, 0.44, 0.48, 0.80, 0.86, 0.89, 0.93, 0.96, 0.97, 0.98, 0.99)
+SWITCH_PARAMS = {'start_costs': [0.5, 1.0, 2.5, 4.0], 'start_fuel': [0.5, 1.0, 2.0], 'consumption_if_on': [0.125, 0.25, 0.5, 1.0]}
+CONTRACT_TYPES = ('SimpleContract', 'Contract', 'MultiCommodityContract')
+
+
+def vary_layout(rnd, base, grids=()):
+    """makes the variable layout of the assets of the scenario depend on the GRID and the DATA of the call (in place); returns the names
+    of the assets touched.
+    Plants / CHPs (4 of 5): the reasons for on / start variables that hold on every grid are removed with probability 3/4 each (minimum
+    capacity; start costs, start fuel, idle consumption - these are else, 3 of 10, re-expressed as a SWITCH KEY into the data: a series
+    that `finish_layout` sets to zero in some data sets); minimum run time and / or minimum down time are set (in the main time unit of
+    the base grid) to a duration that is SEVERAL STEPS on the finest of the `grids` of the case and AT MOST ONE STEP (no variable needed)
+    on the coarsest - the step of one of the coarser grids, 3 of 4 - or to 2-4 steps of the base grid; a CHP becomes, 1 of 2, a CHP with minimum-load costs (threshold and costs as scalar or key).
+    Contracts: extra costs (the reason for two variables per step) as switch key (given ones 1 of 2, else added 3 of 10); a positive
+    maximum capacity, 1 of 4, as interval data that is zero in the first part of the horizon (one variable per step on a horizon inside it)"""
+    g = base['grid']
+    T = len(next(iter(base['prices'].values()))) if base['prices'] else _T(g)
+    per = g['step_s'] / UNIT_S[g['unit']]          # one step of the base grid in main time units
+    steps = sorted({x['step_s'] for x in grids} | {g['step_s']})
+
+    def duration():
+        if len(steps) > 1 and rnd.random() < 0.75:
+            return rnd.choice(steps[1:]) / UNIT_S[g['unit']]
+        return rnd.choice([2, 2, 2, 3, 4]) * per
+    touched = []
+    sw = base.setdefault('switch_keys', [])
+
+    def as_switch(a, par, vals):
+        key = '%s_%s' % (par, a['name'])
+        base['prices'][key] = [rnd.choice(vals) for _ in range(T)]
+        a['args'][par] = key
+        sw.append(key)
+
+    for a in scen.all_asset_specs(base):
+        args = a.get('args', {})
+        if a['type'] in PLANT_TYPES:
+            if rnd.random() >= 0.8:
+                continue
+            chp = a['type'] != 'Plant'
+            fuel = len(a['nodes']) == (3 if chp else 2)
+            if 'min_cap' in args and rnd.random() < 0.85:
+                args.pop('min_cap')
+            for par, vals in SWITCH_PARAMS.items():
+                if par != 'start_costs' and not fuel:
+                    args.pop(par, None)
+                    continue
+                r = rnd.random()
+                if par in args:
+                    if r < 0.6:
+                        args.pop(par)
+                    elif r < 0.9 and isinstance(args[par], (int, float)):
+                        as_switch(a, par, vals)
+                elif r < 0.15:
+                    as_switch(a, par, vals)
+            for k in ('min_runtime', 'min_downtime', 'time_already_running', 'time_already_off'):
+                args.pop(k, None)
+            which = rnd.choice(['run', 'run', 'down', 'both'])
+            if which in ('run', 'both'):
+                args['min_runtime'] = duration()
+            if which in ('down', 'both'):
+                args['min_downtime'] = duration()
+            if 'min_downtime' in args or rnd.random() < 0.3:
+                args[rnd.choice(['time_already_running', 'time_already_off'])] = rnd.randint(1, 3) * per
+            if a['type'] == 'CHPAsset' and rnd.random() < 0.5:
+                a['type'] = 'CHPAsset_with_min_load_costs'
+                args['min_load_threshhold'] = gen.q8(rnd, 0.5, 3)
+                args['min_load_costs'] = gen.q8(rnd, 0.5, 3)
+            if a['type'] == 'CHPAsset_with_min_load_costs' and rnd.random() < 0.3:
+                par = rnd.choice(['min_load_threshhold', 'min_load_costs'])
+                key = '%s_%s' % (par, a['name'])
+                base['prices'][key] = [rnd.choice([0.5, 1.0, 2.0, 3.0]) for _ in range(T)]
+                args[par] = key
+            touched.append(a['name'])
+        elif a['type'] in CONTRACT_TYPES:
+            r = rnd.random()
+            ec = args.get('extra_costs')
+            if (isinstance(ec, (int, float)) and ec != 0 and r < 0.5) or (ec is None and r < 0.3):
+                as_switch(a, 'extra_costs', [0.125, 0.5, 1.0, 2.0])
+                touched.append(a['name'])
+            mc = args.get('max_cap')
+            if isinstance(mc, (int, float)) and mc > 0 and isinstance(args.get('min_cap'), (int, float)) and args['min_cap'] <= 0 \
+                    and g['T_nominal'] >= 2 and rnd.random() < 0.25:
+                cut = gen.P(g, rnd.randint(1, g['T_nominal'] - 1))
+                lo, hi = gen.P(g, -2), gen.P(g, g['T_nominal'] + 3)
+                if all(gen.ok_local(x, g) for x in (lo, cut, hi)):
+                    args['max_cap'] = {'start': [gen.dtv(lo), gen.dtv(cut)], 'end': [gen.dtv(cut), gen.dtv(hi)], 'values': [0.0, float(mc)]}
+                    touched.append(a['name'])
+    return touched
+
+
+def finish_layout(rnd, case):
+    """the SWITCH KEYS of the scenario (see `vary_layout`) are all zero in 4 of 10 of the data sets of the case (never in the first one)"""
+    for p in case['prices'][1:]:
+        if p['form'] == 'dict_list' and case['base'].get('switch_keys'):
+            p['form'] = 'dict_series'        # (parameters keyed into the data do not accept lists)
+        for key in case['base'].get('switch_keys', []):
+            if key in p['data'] and rnd.random() < 0.4:
+                p['data'][key] = [0.0] * len(p['data'][key])
+    return case
+
+
+def gen_layout_case(rnd):
+    """histories over portfolios around assets whose VARIABLE LAYOUT depends on the grid and on the data of the call (`vary_layout`:
+    plants, CHPs, CHPs with minimum-load costs, contracts; storages with their MIP options beside them) on 2-4 grids of one horizon,
+    at least one of them with another step (half of the variants 2-4 times the step, 1 of 6 a fraction of it; some shortened / shifted,
+    15 of 100 in another main time unit), 1-2 data sets per grid (switch keys zero in some); calls on single assets name a touched asset in 7 of 10 cases"""
+    kinds = ['plant', 'plant', 'chp', 'chp', 'chp', 'simple', 'contract', 'storage', 'multi', 'structured', 'transport']
+    grids0 = [g for g in gen.GRIDS if g[0] in ('h', '30min', '2h')]
+    base = None
+    for _ in range(8):          # (drawn until the portfolio holds a CHP - accepted always - or a plant - accepted 4 of 10)
+        T0 = rnd.choice([4, 6, 8, 8])        # (steps of the base grid: grids of 2 / 4 times the step exist over the same horizon)
+        base = gen.gen_portfolio(rnd, kinds=kinds, tmin=T0, tmax=T0, tz_prob=0.1, allow_mip=True, max_assets=rnd.choice([1, 2, 3]), nodes_max=3,
+                                 allow_freq=False, allow_periodic=False, allow_blocks=False, grids=grids0)
+        types = {a['type'] for a in scen.all_asset_specs(base)}
+        if types & set(PLANT_TYPES[1:]) or ('Plant' in types and rnd.random() < 0.4) or rnd.random() < 0.05:
+            break
+    g0 = {k: v for k, v in base['grid'].items()}
+    grids = [g0]
+    for _ in range(4):
+        grids = [g0] + freq_grid_variants(rnd, g0, rnd.randint(1, 3), tmax=16, unit_p=0.15, kinds=['coarser', 'coarser', 'coarser', 'finer', 'same', 'respell'])
+        if any(g['step_s'] != g0['step_s'] for g in grids):
+            break
+    touched = vary_layout(rnd, base, grids)
+    vary_forms(rnd, base)
+    case = finish_case(rnd, base, grids, hist_len=rnd.randint(3, 7), cuts=CUTS_LAYOUT, mismatch_p=0.03, prefer=touched or None)
+    finish_layout(rnd, case)
+    case['stream'] = 'layout'
+    return case
+
+
+# ----- stream "pdata": the user's PRICE DATA in every container, the same container object through every door, on other horizons
+TIME_FORMS = ('dict_series_time', 'df_time')
+PDATA_FORMS = ['dict', 'dict_list', 'dict_series', 'dict_series_time', 'dict_series_time', 'dict_series_time', 'df_time', 'df_time', 'df_range']
+CAST_DOORS = ('pf_cast', 'io_optimize', 'pf_split')            # data are cast to the grid by time (Timegrid.prices_to_grid) first
+DIRECT_DOORS = ('pf_setup', 'cost_samples', 'asset_setup')     # the container itself reaches the set-up of the assets
+
+
+def gen_pdata_case(rnd):
+    """the user holds DATA FOR A PERIOD (grid 0) in one container - dict of arrays / lists / Series with RangeIndex, dict of Series WITH
+    DatetimeIndex, DataFrame with DatetimeIndex / RangeIndex - and uses THE SAME OBJECT for 3-7 calls on the period and on other horizons
+    (1-3 variants: shifted by some steps, a part of the period, longer, an equal grid, other step / main time unit): handed directly to
+    a set-up (portfolio, cost samples, single asset; needs the length of the grid) and through the doors that cast data to the grid by
+    time (Timegrid.prices_to_grid + set-up, eaopack.io.optimize with and without intervals, split set-up); a second data set in 4 of 10
+    cases; 6 of 10 histories start with a direct handover on the period.  The fresh side of the history oracle builds the container anew
+    for every call: "a later call with the used container equals the call with a pristine copy"."""
+    kinds = ['simple', 'simple', 'contract', 'storage', 'storage', 'transport', 'plant', 'chp', 'multi', 'scaled', 'structured']
+    base = gen.gen_portfolio(rnd, kinds=kinds, tmin=3, tmax=8, tz_prob=0.15, allow_mip=rnd.random() < 0.3, max_assets=rnd.choice([1, 2, 3]),
+                             allow_freq=rnd.random() < 0.2, allow_periodic=False, allow_blocks=False)
+    vary_forms(rnd, base)
+    g0 = {k: v for k, v in base['grid'].items()}
+    grids = [g0] + [g for g in grid_variants(rnd, g0, rnd.randint(2, 4)) if g['kind'] != 'tz'][:3]
+    Ts = [_T(g) for g in grids]
+    keys = list(base['prices'].keys())
+
+    def data_set(T):
+        d = {k: [rnd.choice(base['prices'][k]) for _ in range(T)] for k in keys}
+        ps = [k for k in keys if k.startswith('p')]
+        if ps and rnd.random() < 0.5:
+            d[rnd.choice(ps)] = [float(i + 1) for i in range(T)]      # strictly increasing: data assigned to the wrong time show
+        return d
+    prices = []
+    for _ in range(1 if rnd.random() < 0.6 else 2):
+        prices.append({'T': Ts[0], 'form': rnd.choice(PDATA_FORMS), 'data': data_set(Ts[0]), 'index_grid': 0})
+    for gid in range(1, len(grids)):
+        if Ts[gid] != Ts[0] and rnd.random() < 0.4:
+            prices.append({'T': Ts[gid], 'form': rnd.choice(PDATA_FORMS), 'data': data_set(Ts[gid]), 'index_grid': gid})
+    names = spec_names(base)
+    hist = []
+    n_calls = rnd.randint(3, 7)
+    while len(hist) < n_calls:
+        first = not hist
+        pid = 0 if (first or rnd.random() < 0.7) else rnd.randrange(len(prices))
+        p = prices[pid]
+        fit = [g for g, t in enumerate(Ts) if t == p['T']]
+        if first and rnd.random() < 0.6:
+            door = rnd.choice(['pf_setup', 'pf_setup', 'pf_setup', 'cost_samples', 'asset_setup'])
+        elif p['form'] in TIME_FORMS:
+            door = rnd.choice(DIRECT_DOORS[:2] + CAST_DOORS + CAST_DOORS)
+        else:
+            door = rnd.choice(DIRECT_DOORS + CAST_DOORS)
+        if door in DIRECT_DOORS or p['form'] not in TIME_FORMS:
+            # the length must fit (3 of 100: any grid)
+            gid = rnd.choice(fit) if rnd.random() >= 0.03 else rnd.randrange(len(grids))
+        else:
+            gid = rnd.randrange(len(grids))
+        c = {'op': door, 'grid': gid, 'reuse': rnd.random() < 0.6, 'prices': pid}
+        if door == 'cost_samples':
+            c['prices'] = [pid] * rnd.randint(1, 2)
+        elif door == 'asset_setup':
+            c['asset'] = rnd.choice(names)[0]
+        elif door == 'pf_split' or (door == 'io_optimize' and rnd.random() < 0.4):
+            c['interval'] = _tick(max(1, Ts[gid] // rnd.choice([2, 3])) * grids[gid]['step_s'])
+        hist.append(c)
+        if door in ('pf_setup', 'pf_cast', 'pf_split') and rnd.random() < 0.3 and len(hist) < n_calls:
+            hist.append({'op': 'optimize', 'soft': False})
+            if rnd.random() < 0.6:
+                hist.append({'op': rnd.choice(['extract', 'dcf']), 'asset': rnd.choice(names)[0]})
+    return {'base': base, 'grids': grids, 'prices': prices, 'history': hist, 'stream': 'pdata'}
 
 
 # ----- stream "splitfail": split set-ups that RAISE in one of their intervals (data that is fine at first and invalid from some step on),
@@ -1068,6 +1273,92 @@ def run_read_call(world, call, op, res, prices, tg):
     raise ValueError(o)
 
 
+def _op_prices(world, L, tg):
+    """the prices the op of record `L` was built from: the container itself, after a `pf_cast` the container cast to the grid"""
+    c = world.prices(L['pid'])
+    if L['call'].get('op') == 'pf_cast' and tg is not None:
+        return tg.prices_to_grid(c)
+    return c
+
+
+def layout_of(op):
+    """asset name -> frozenset of the variable names the asset has in the problem (None: no mapping to read)"""
+    mp = getattr(op, 'mapping', None)
+    if mp is None or len(mp) == 0 or 'asset' not in mp.columns or 'var_name' not in mp.columns:
+        return {}
+    out = {}
+    for nm, vn in zip(mp['asset'].values, mp['var_name'].values):
+        out.setdefault(str(nm), set()).add(str(vn))
+    return {k: frozenset(v) for k, v in out.items()}
+
+
+def _frame_diff(a, b):
+    """first difference of two frames (pristine, used) as text, None if equal (columns, index, values; nan = nan)"""
+    if list(map(str, a.columns)) != list(map(str, b.columns)):
+        return 'columns %s vs %s' % (list(a.columns)[:6], list(b.columns)[:6])
+    if len(a.index) != len(b.index) or not a.index.equals(b.index):
+        return 'index differs (%d vs %d rows)' % (len(a.index), len(b.index))
+    for c in a.columns:
+        x, y = np.asarray(a[c].values, dtype=float), np.asarray(b[c].values, dtype=float)
+        if not np.array_equal(x, y, equal_nan=True):
+            j = int(np.argmax(~((x == y) | (np.isnan(x) & np.isnan(y)))))
+            return 'column %s, row %d: %s vs %s' % (c, j, x[j], y[j])
+    return None
+
+
+def probe_prices(case, H, pid):
+    """oracle prices_changed_for_later_calls: the price container #pid of the history world is no longer in the state it was created in.
+    A copy of it (so that the probes do not disturb the history) and a PRISTINE container (built anew from the case) are handed to the
+    later calls a user can make with the data, on every grid of the case: Timegrid.prices_to_grid, and the direct set-up of a fresh
+    object tree.  Returns (list of difference texts '(pristine) vs (used)', number of probes evaluated)."""
+    out, n = [], 0
+    for gid in range(len(case['grids'])):
+        try:
+            P, U = World(case), World(case)
+            pristine = P.prices(pid)
+            used = copy.deepcopy(H.pcont[pid])
+            tgP, tgU = P.grid(gid), U.grid(gid)
+        except Exception:
+            continue
+        # door 1: cast to the grid
+        res = []
+        for tg, c in ((tgP, pristine), (tgU, used)):
+            try:
+                res.append(('ok', tg.prices_to_grid(c)))
+            except Exception as e:
+                res.append(('raises', e))
+        n += 1
+        d = None
+        if res[0][0] != res[1][0]:
+            e = (res[1] if res[1][0] == 'raises' else res[0])[1]
+            d = 'raises with the %s container only: %s: %s' % ('used' if res[1][0] == 'raises' else 'PRISTINE', type(e).__name__, str(e)[:160])
+        elif res[0][0] == 'ok':
+            d = _frame_diff(res[0][1], res[1][1])
+        if d:
+            out.append('Timegrid.prices_to_grid on grid %d: %s' % (gid, d))
+            continue
+        # door 2: handed directly to the set-up of a fresh object tree
+        res = []
+        for W, tg, c in ((P, tgP, pristine), (U, tgU, copy.deepcopy(H.pcont[pid]))):
+            try:
+                res.append(('ok', W.portf.setup_optim_problem(c, tg)))
+            except Exception as e:
+                res.append(('raises', e))
+        n += 1
+        if res[0][0] != res[1][0]:
+            e = (res[1] if res[1][0] == 'raises' else res[0])[1]
+            out.append('set-up of a fresh portfolio on grid %d raises with the %s container only: %s: %s' % (
+                gid, 'used' if res[1][0] == 'raises' else 'PRISTINE', type(e).__name__, str(e)[:160]))
+        elif res[0][0] == 'ok':
+            try:
+                ds = diff_result('problem', canon_result('problem', res[0][1]), canon_result('problem', res[1][1]))
+            except Exception:
+                ds = []
+            if ds:
+                out.append('set-up of a fresh portfolio on grid %d: %s' % (gid, '; '.join(ds[:2]).replace('(fresh)', '(pristine data)').replace('(history)', '(used data)')))
+    return out, n
+
+
 def ctor_params(obj):
     """names of the constructor parameters of the object's class and of its base classes (what the user can hand over)"""
     out = set()
@@ -1110,6 +1401,7 @@ def execute(case, compare=True, stop_at_first=False):
     snap = Snap()
     snap.update(H, -1)
     ctor = {n: ctor_params(a) for n, a in H.byname.items()}
+    layouts = {}          # asset name -> variable names it had in the last problem it was part of
     for i, call0 in enumerate(case['history']):
         call = dict(call0)
         o = call['op']
@@ -1167,6 +1459,14 @@ def execute(case, compare=True, stop_at_first=False):
                 except Exception as e:
                     h_err = e
                 split_like = o == 'pf_split' or (o == 'io_optimize' and call.get('interval'))
+                if h_err is None and h_kind == 'problem':
+                    # the situation the stream `layout` aims at: the same object has other variables than in its set-up before
+                    for nm, lay in layout_of(h_val).items():
+                        old = layouts.get(nm)
+                        if old is not None and old != lay and nm in H.byname:
+                            feats.append('layout-changed:%s:%s' % (type(H.byname[nm]).__name__,
+                                                                   'fewer-kinds-of-variables' if lay < old else 'more-kinds-of-variables' if lay > old else 'other-variables'))
+                        layouts[nm] = lay
                 if split_like and h_err is not None and H.split_started is not None:
                     feats.append('split-raises:' + ('before-the-intervals' if H.split_started == 0 else 'in-interval-1' if H.split_started == 1 else 'in-a-later-interval'))
                 # fresh side
@@ -1306,7 +1606,7 @@ def execute(case, compare=True, stop_at_first=False):
                 h_err, h_kind, h_val = None, None, None
                 tgH = H.grids.get(L['gid'])
                 try:
-                    h_kind, h_val = run_read_call(H, call, L['op'], ctx.res, H.prices(L['pid']), tgH)
+                    h_kind, h_val = run_read_call(H, call, L['op'], ctx.res, _op_prices(H, L, tgH), tgH)
                 except Exception as e:
                     h_err = e
                 if o == 'make_slp':
@@ -1321,7 +1621,7 @@ def execute(case, compare=True, stop_at_first=False):
                     f_err, f_kind, f_val = None, None, None
                     try:
                         _, fop = run_setup_call(F, fc, expected_gid=L.get('exp_gid'))
-                        f_kind, f_val = run_read_call(F, call, fop, ctx.res, F.prices(L['pid']), F.grid(L['gid']))
+                        f_kind, f_val = run_read_call(F, call, fop, ctx.res, _op_prices(F, L, F.grid(L['gid'])), F.grid(L['gid']))
                     except Exception as e:
                         f_err = e
                     out['n_compared'] += 1
@@ -1344,6 +1644,20 @@ def execute(case, compare=True, stop_at_first=False):
         new_facts = snap.update(H, i)
         out['facts'] += new_facts
         viols = [viol + (None,)] if viol is not None else []
+        if compare:
+            # oracle prices_changed_for_later_calls: a price container that a call left in another state than it was created in is handed
+            # (as a copy) to the later calls a user can make with it, next to a pristine container
+            for f in new_facts:
+                if f.get('kind') == 'user_data_changed' and f['what'].startswith('prices #'):
+                    pid_ = int(f['what'].split('#')[1].split(' ')[0])
+                    with Quiet():
+                        ds, n_pr = probe_prices(case, H, pid_)
+                    out['n_compared'] += n_pr
+                    feats.append('prices-container-changed:%s:%s' % (case['prices'][pid_]['form'], 'later-calls-differ' if ds else 'later-calls-equal'))
+                    if ds:
+                        viols.append(('prices_reuse', 'price data %s changed by the call (%s) so that later calls differ from those with a pristine copy: %s' % (
+                            f['what'], f['detail'], '; '.join(ds[:2])), ('prices', pid_)))
+                        break
         if o in SETUP_OPS or o == 'set_timegrid':
             # oracle parameter_changed: a set-up "does not alter user-supplied parameters": the constructor parameters of every asset
             # hold after the call what they held after construction (up to the accepted normalisation of the form)
@@ -1355,8 +1669,11 @@ def execute(case, compare=True, stop_at_first=False):
                     break
         for vk, vdetail, pc in viols:
             changed = [f for f in out['facts'] if f['kind'] == 'user_data_changed']
+            pform = None
+            if vk == 'prices_reuse':
+                pform, pc = case['prices'][pc[1]]['form'], None
             who = pc[0] if pc is not None else call.get('asset')
-            out['violations'].append({'oracle': 'parameter_changed' if pc is not None else 'history_' + vk,
+            out['violations'].append({'oracle': 'parameter_changed' if pc is not None else 'prices_changed_for_later_calls' if vk == 'prices_reuse' else 'history_' + vk,
                                       'detail': 'call %d (%s): %s' % (i, _call_str(call0), vdetail),
                                       'facts': {'kind': vk, 'call': i, 'op': o, 'history_ops': [c['op'] for c in case['history'][:i + 1]],
                                                 'user_data_changed': changed[:5], 'shared_grid_object': bool(call.get('reuse')),
@@ -1364,8 +1681,8 @@ def execute(case, compare=True, stop_at_first=False):
                                                 'parameter': pc[1] if pc is not None else None,
                                                 'nested': ('asset' in call and call['asset'] not in [a.name for a in H.assets]),
                                                 'after_failed_split': bool(o in SETUP_OPS and after_failed),
-                                                'prices_form': (case['prices'][call['prices']]['form'] if isinstance(call.get('prices'), int)
-                                                                and call['prices'] < len(case['prices']) else None),
+                                                'prices_form': pform or (case['prices'][call['prices']]['form'] if isinstance(call.get('prices'), int)
+                                                                         and call['prices'] < len(case['prices']) else None),
                                                 'prices_changed_before': any(f['what'].startswith('prices') for f in changed)}})
         if viols and (stop_at_first is True or any(v[0] == stop_at_first for v in viols)):
             break
@@ -2381,6 +2698,12 @@ def scenarios(seed, tier):
     rnd5 = random.Random(seed * 7919 + 4010)
     for i in range(200 if tier == 'quick' else 1500):
         yield 'nested%d' % i, gen_nested_case(random.Random(rnd5.getrandbits(48)))
+    rnd6 = random.Random(seed * 7919 + 5010)
+    for i in range(120 if tier == 'quick' else 1000):
+        yield 'layout%d' % i, gen_layout_case(random.Random(rnd6.getrandbits(48)))
+    rnd7 = random.Random(seed * 7919 + 6010)
+    for i in range(120 if tier == 'quick' else 1000):
+        yield 'pdata%d' % i, gen_pdata_case(random.Random(rnd7.getrandbits(48)))
 
 
 def _step_of(freq):
